@@ -388,17 +388,13 @@ func (c *c19ctx) injectBase64() {
 
 func (c *c19ctx) injectB1(n int) {
 	c.group = "B-inject"
-	kinds := []string{"syntax", "missing", "dir", "type", "encode", "xml", "type", "syntax"}
+	kinds := []string{"syntax", "missing", "dir", "type", "encode", "xml", "type", "syntax", "base64", "xml"}
 	kind := kinds[n%len(kinds)]
 	if kind == "xml" {
-		if c.r.IntN(2) == 0 {
-			c.injectBase64()
-		} else {
-			c.injectXML()
-		}
+		c.injectXML()
 		return
 	}
-	if kind == "syntax" && c.r.IntN(6) == 0 {
+	if kind == "base64" {
 		c.injectBase64()
 		return
 	}
